@@ -13,8 +13,8 @@ from . import base
 from .base import canon_msg
 
 ID = "C08"
-QUICK_RUNS = 6000
-THOROUGH_RUNS = 400000
+QUICK_RUNS = 15000
+THOROUGH_RUNS = 600000
 LEVEL = "exploration"
 RULE = ("one run = one generated program (actions, messages, tracebacks, raises) interleaved with add/remove of "
         "destinations, 1-5 destinations each with a failure mask (bernoulli p, first k, every k-th, always, only "
